@@ -137,11 +137,12 @@ def stepReqLine (args : List String) : String :=
 namespace FileDrv
 
 def showActor : SessionFile.Actor → String
-  | .req i => s!"r{i}" | .sweep => "S" | .tick d => s!"K{d}" | .expire i => s!"X{i}"
+  | .req i => s!"r{i}" | .sweep => "S" | .tick d => s!"K{d}" | .expire i => s!"X{i}" | .fault k => s!"F{k}"
 
 def showPc : SessionFile.Pc → String
   | .init => "init" | .gex => "gex" | .acq => "acq" | .openr => "openr" | .load => "load" | .trunc => "trunc"
   | .dump => "dump" | .rel => "rel" | .done => "done" | .gone => "gone" | .failed => "failed"
+  | .del => "del" | .rdel => "rdel" | .rrel => "rrel"
 
 def showSPc : SessionFile.SPc → String
   | .list => "list" | .acq => "acq" | .openr => "openr" | .load => "load" | .unlink => "unlink"
